@@ -629,8 +629,10 @@ def c12_jobs(tier):
                 if which in (0, 1, 2, 3, 4, 5, 6, 18, 19, 20, 22, 23):
                     # iterative routines: also depth first, which follows the convergence loop (the
                     # breadth-first job sees the early exits) until the step bound
+                    if kind != 0:
+                        continue  # followed runs keep every term of the run alive: Float64 only, bounded depth
                     jobs.append({"pkg": ZZ, "func": "verif_C12_alg", "args": [which, kind, n], "tag": f"alg-deep which={which} kind={kind} n={n}",
-                                 "max_paths": 6 if quick else 30, "max_steps": 400000, "max_wall_ms": 25000 if quick else 120000, "selftest": False,
+                                 "max_paths": 6 if quick else 10, "max_steps": 400000 if quick else 250000, "max_wall_ms": 25000 if quick else 90000, "selftest": False,
                                  "follow": "c12"})
     return jobs
 
